@@ -326,7 +326,14 @@ def _work(item):
         try:
             H = F.build(spec)
             ck = check_network(H, wkind)
-            return {"n": ck.n, "viols": [(m, msg, t, spec) for m, msg, t in ck.out]}
+            # same object again after an in-place detour (first node / first edge removed and re-inserted): results must
+            # come from the current structure, not from anything remembered about this object
+            F.detour(H)
+            ck2 = check_network(H, wkind)
+            out = [(m, msg, t, spec) for m, msg, t in ck.out]
+            out += [(m, "[second evaluation of the same object after remove+re-add of its first node and edge] " + msg, t, spec)
+                    for m, msg, t in ck2.out]
+            return {"n": ck.n + ck2.n, "viols": out}
         except RecursionError:
             raise
         except Exception as e:  # noqa: BLE001
